@@ -89,6 +89,84 @@ theorem Writer.Counted.put {α : Type} {w : Writer α} (hc : w.Counted) (r : α)
   unfold Writer.Counted at *
   simp [Writer.put, hc]; omega
 
+/-- failed attempts change nothing but the warning counter (and remember that the statement was executed) -/
+theorem Writer.exec_retries {α : Type} (w : Writer α) (r : α) (hi : w.inflight = some r) (k : Nat) :
+    w.exec (List.replicate k .retry) = { w with retries := w.retries + k } := by
+  induction k generalizing w with
+  | zero => simp [Writer.exec]
+  | succ n ih =>
+    have h1 : (w.step .retry) = { w with retries := w.retries + 1 } := by simp [Writer.step, hi]
+    have h2 : (w.step .retry).inflight = some r := by simp [h1, hi]
+    simp only [Writer.exec, List.replicate_succ, List.foldl_cons]
+    have := ih (w.step .retry) h2
+    simp only [Writer.exec] at this
+    rw [this, h1]
+    simp [Nat.add_assoc, Nat.add_comm 1 n]
+
+theorem Writer.exec_commitFails {α : Type} (w : Writer α) (r : α) (hi : w.inflight = some r) (m : Nat) (hm : 0 < m) :
+    w.exec (List.replicate m .commitFail) = { w with executed := true, retries := w.retries + m } := by
+  induction m generalizing w with
+  | zero => omega
+  | succ n ih =>
+    have h1 : (w.step .commitFail) = { w with executed := true, retries := w.retries + 1 } := by simp [Writer.step, hi]
+    simp only [Writer.exec, List.replicate_succ, List.foldl_cons]
+    rcases Nat.eq_zero_or_pos n with hn | hn
+    · subst hn; simp [h1]
+    · have h2 : (w.step .commitFail).inflight = some r := by simp [h1, hi]
+      have := ih (w.step .commitFail) h2 hn
+      simp only [Writer.exec] at this
+      rw [this, h1]
+      simp [Nat.add_assoc, Nat.add_comm 1 n]
+
+theorem Writer.exec_append {α : Type} (w : Writer α) (a b : List WChoice) : w.exec (a ++ b) = (w.exec a).exec b := by
+  simp [Writer.exec, List.foldl_append]
+
+/-- one row through the consumer: however often its `execute` and its `commit` fail first, it ends up in the table right
+    after the rows before it, once -/
+theorem Writer.exec_row {α : Type} (w : Writer α) (r : α) (q : List α) (hi : w.inflight = none) (hq : w.queue = r :: q)
+    (k m : Nat) :
+    let w' := w.exec (rowSched k m)
+    w'.queue = q ∧ w'.inflight = none ∧ w'.db = w.db ++ [r] ∧ w'.unfinished = w.unfinished - 1 ∧
+    w'.retries = w.retries + k + m := by
+  have hget : w.step .get = { w with inflight := some r, queue := q, executed := false } := by
+    simp [Writer.step, hi, hq]
+  simp only [rowSched, Writer.exec_append]
+  have e1 : w.exec [.get] = w.step .get := rfl
+  rw [e1, hget]
+  rw [Writer.exec_retries _ r rfl k]
+  rcases Nat.eq_zero_or_pos m with hm | hm
+  · subst hm
+    simp [Writer.exec, Writer.step]
+  · rw [Writer.exec_commitFails _ r rfl m hm]
+    simp [Writer.exec, Writer.step, Nat.add_assoc]
+
+/-- the whole backlog, row after row, each with its own number of failed attempts -/
+theorem Writer.exec_drain {α : Type} (w : Writer α) (hi : w.inflight = none) (faults : List (Nat × Nat))
+    (hl : faults.length = w.queue.length) :
+    let w' := w.exec (faults.flatMap fun f => rowSched f.1 f.2)
+    w'.queue = [] ∧ w'.inflight = none ∧ w'.db = w.db ++ w.queue ∧ w'.unfinished = w.unfinished - w.queue.length ∧
+    w'.retries = w.retries + (faults.map fun f => f.1 + f.2).sum := by
+  induction faults generalizing w with
+  | nil =>
+    have : w.queue = [] := by
+      cases hq : w.queue with
+      | nil => rfl
+      | cons a b => simp [hq] at hl
+    simp [Writer.exec, this, hi]
+  | cons f fs ih =>
+    cases hq : w.queue with
+    | nil => simp [hq] at hl
+    | cons r q =>
+      obtain ⟨h1, h2, h3, h4, h5⟩ := Writer.exec_row w r q hi hq f.1 f.2
+      have hl' : fs.length = (w.exec (rowSched f.1 f.2)).queue.length := by
+        rw [h1]; simp [hq] at hl; exact hl
+      obtain ⟨g1, g2, g3, g4, g5⟩ := ih (w.exec (rowSched f.1 f.2)) h2 hl'
+      simp only [List.flatMap_cons, Writer.exec_append]
+      refine ⟨g1, g2, ?_, ?_, ?_⟩
+      · rw [g3, h3, h1]; simp
+      · rw [g4, h4, h1]; simp; omega
+      · rw [g5, h5]; simp; omega
+
 theorem Writer.empty_all {α : Type} : (Writer.empty : Writer α).all = [] := rfl
 
 /-! ### draining the queue -/
